@@ -225,6 +225,27 @@ def check_parse_uri_lookup(cx: Cx, ob: Ob) -> None:
         extra = list(c[2][1:]) + [v_ for k_, v_ in c[3] if k_ == "default"]
         bad_kw = [k_ for k_, _ in c[3] if k_ != "default"]
         # pytrie: longest_prefix*(key, default) returns the default instead of raising KeyError
+        null_default = lambda x: is_const(x, None) or (op(x) == "tuple" and len(x[1]) == 2 and all(is_const(y, None) for y in x[1]))  # noqa: E731
+        if c[2][:1] == (("param", "uri"),) and not bad_kw and len(extra) == 1 and null_default(extra[0]):
+            # the miss is the default: it must be told from a match by identity with None - the empty prefix and the
+            # empty URI prefix are falsy, and both are answers of the trie
+            from ..rules import truthiness_tests
+
+            seen_ = set()
+            for g, gctx in s.walk():
+                if g.kind != "guard" or g.line in seen_:
+                    continue
+                for tt in truthiness_tests(g.a):
+                    if any(x == c for x in subterms(tt)) and not (op(tt) == "call" and tt[1] == ("builtin", "isinstance")):
+                        seen_.add(g.line)
+                        ob.violate(
+                            fn.qualname,
+                            where(fn, g.line),
+                            f"the trie is queried with a default and the answer is tested by truthiness (`{show(g.a)[:60]}`): a match whose canonical prefix is '' (rdflib's default namespace) or whose key is the empty URI prefix is falsy and is taken for a miss; use `is None`",
+                            witness="Converter.from_prefix_map({'': 'http://example.org/'}).compress('http://example.org/x') is None",
+                            detail="default-truthiness",
+                        )
+            continue
         if c[2][:1] != (("param", "uri"),) or bad_kw or len(extra) > 1 or any(not is_const(x, None) for x in extra):
             ob.violate(fn.qualname, where(fn, ev.line), f"trie queried with `{show(c[2][0]) if c[2] else '?'}` instead of the raw `uri` argument", detail="query-arg")
     # failure paths: every non-success outcome must sit under an except handler catching KeyError
